@@ -156,6 +156,11 @@ def check(prop, tier, seed):
         okc, outc, dtc = core.leanchecker(mods)
         lc_info = dict(modules=mods, ok=okc, wall_s=round(dtc, 1))
         if not okc:
+            if 'does not exist' in outc or 'No such file' in outc:
+                # infrastructure (a compiled file is missing, e.g. a concurrent rebuild): the check is broken, not the property
+                print(outc[-500:])
+                print(f"CHECK-BROKEN property={prop} (leanchecker could not load the compiled modules)")
+                return 2
             broken.append('leanchecker rejects the compiled modules: ' + outc[-300:])
             discharged = []
 
